@@ -11,9 +11,9 @@ import json, os, subprocess, sys, time, hashlib, shutil, random, re, concurrent.
 ROOT = os.path.dirname(os.path.dirname(os.path.abspath(__file__)))
 SPEC = os.path.join(ROOT, "spec")
 HARNESS = os.path.join(ROOT, "harness")
-WORK = os.path.join(ROOT, "work")
+WORK = os.environ.get("VERIF_WORK_DIR") or os.path.join(ROOT, "work")
 REPLAYS = os.path.join(ROOT, "replays")
-EVID = os.path.join(ROOT, "evidence")
+EVID = os.environ.get("VERIF_EVID_DIR") or os.path.join(ROOT, "evidence")
 TLA_CP = "/opt/veriftools/tla/tla2tools.jar:/opt/veriftools/tla/CommunityModules-deps.jar"
 NCPU = 16
 
@@ -50,9 +50,35 @@ def from_limbs(l):
 _built = {}
 
 
+def _harness_dir():
+    """The registered checks always build /verif/harness against /repo.  For experiments on a scratch copy of
+    the repository (VERIF_REPO=<dir>, used by tools/altrun.sh so that /repo itself stays untouched) a copy of
+    the harness with rewritten path dependencies is kept under work/."""
+    alt = os.environ.get("VERIF_REPO")
+    if not alt:
+        return HARNESS
+    d = os.path.join(WORK, "harness-alt")
+    os.makedirs(os.path.join(d, "src", "bin"), exist_ok=True)
+    os.makedirs(os.path.join(d, ".cargo"), exist_ok=True)
+    for root, _, files in os.walk(os.path.join(HARNESS, "src")):
+        for f in files:
+            src = os.path.join(root, f)
+            dst = os.path.join(d, os.path.relpath(src, HARNESS))
+            if not os.path.exists(dst) or open(src).read() != open(dst).read():
+                shutil.copy(src, dst)
+    toml = open(os.path.join(HARNESS, "Cargo.toml")).read().replace('path = "/repo/', 'path = "%s/' % alt.rstrip("/"))
+    if not os.path.exists(os.path.join(d, "Cargo.toml")) or open(os.path.join(d, "Cargo.toml")).read() != toml:
+        open(os.path.join(d, "Cargo.toml"), "w").write(toml)
+    shutil.copy(os.path.join(HARNESS, "Cargo.lock"), os.path.join(d, "Cargo.lock"))
+    shutil.copy(os.path.join(HARNESS, ".cargo", "config.toml"), os.path.join(d, ".cargo", "config.toml"))
+    return d
+
+
 def build_harness(profile="dev", serde=True):
     """cargo build the harness against /repo's current working tree."""
-    key = (profile, serde)
+    global HARNESS
+    HARNESS_DIR = _harness_dir()
+    key = (profile, serde, HARNESS_DIR)
     if key in _built:
         return _built[key]
     tdir = "target" if serde else "target-noserde"
@@ -63,11 +89,11 @@ def build_harness(profile="dev", serde=True):
         cmd += ["--no-default-features"]
     env = dict(os.environ, CARGO_NET_OFFLINE="true", VH_PROFILE=profile)
     t0 = time.time()
-    p = subprocess.run(cmd, cwd=HARNESS, env=env, stdout=subprocess.PIPE, stderr=subprocess.STDOUT, text=True)
+    p = subprocess.run(cmd, cwd=HARNESS_DIR, env=env, stdout=subprocess.PIPE, stderr=subprocess.STDOUT, text=True)
     if p.returncode != 0:
         raise ToolError("cargo build of the harness failed (profile=%s serde=%s):\n%s" % (profile, serde, p.stdout[-4000:]))
     sub = "debug" if profile == "dev" else profile
-    path = os.path.join(HARNESS, tdir, sub, "vh")
+    path = os.path.join(HARNESS_DIR, tdir, sub, "vh")
     if not os.path.exists(path):
         raise ToolError("harness binary missing: " + path)
     _built[key] = path
